@@ -5981,3 +5981,435 @@ func constantFloat(k *ssa.Const) (float64, bool) {
 	f, _ := constant.Float64Val(constant.ToFloat(k.Value))
 	return f, true
 }
+
+// ---------- C07-R15: a transition is judged against the repository's record ----------
+func init() { registerExtra("C07", extraC07OldStatusFromRecord) }
+
+func extraC07OldStatusFromRecord(c *Ctx, r *Report) {
+	r.Rule("C07-R15", "the status values compared in the condition that triggers the recovery callback (OnEndpointRecovered) are the probe's result (HealthCheckResult.Status) and the Status of the endpoint record the checker was handed from the repository — on every path; a previous status the checker remembers by itself misses the offline marks the proxy writes straight to the repository, so a recovery after a proxy-detected failure looks like healthy→healthy and no re-discovery is triggered", 1)
+	n := 0
+	for _, f := range c.Funcs {
+		if !strings.HasSuffix(fnPkgPath(f), pkgHealth) {
+			continue
+		}
+		eachInstr(f, func(in ssa.Instruction) {
+			// the trigger: a call / go of something that invokes OnEndpointRecovered
+			trig := false
+			if cc := getCall(in); cc != nil {
+				if cc.IsInvoke() && cc.Method.Name() == "OnEndpointRecovered" && f.Parent() == nil {
+					trig = true
+				}
+				var g *ssa.Function
+				if mc, ok := cc.Value.(*ssa.MakeClosure); ok {
+					g, _ = mc.Fn.(*ssa.Function)
+				} else if sc := cc.StaticCallee(); sc != nil && strings.HasSuffix(fnPkgPath(sc), pkgHealth) {
+					g = sc
+				}
+				if g != nil && g != f {
+					eachInstr(g, func(x ssa.Instruction) {
+						if c2 := getCall(x); c2 != nil && c2.IsInvoke() && c2.Method.Name() == "OnEndpointRecovered" {
+							trig = true
+						}
+					})
+				}
+			}
+			if !trig {
+				return
+			}
+			n++
+			key := fname(f) + ":transition-judged-against-record"
+			bad := ""
+			nStatus := 0
+			var leaf func(v ssa.Value, depth int)
+			leaf = func(v ssa.Value, depth int) {
+				if v == nil || depth == 0 || bad != "" {
+					return
+				}
+				if _, isK := v.(*ssa.Const); isK {
+					return
+				}
+				if ph, ok := v.(*ssa.Phi); ok {
+					for _, e := range ph.Edges {
+						leaf(e, depth-1)
+					}
+					return
+				}
+				if ct, ok := v.(*ssa.ChangeType); ok {
+					leaf(ct.X, depth-1)
+					return
+				}
+				nStatus++
+				if isField(stripLoad(v), pkgDomain, "HealthCheckResult", "Status") || isField(v, pkgDomain, "HealthCheckResult", "Status") {
+					return
+				}
+				if isField(stripLoad(v), pkgDomain, "Endpoint", "Status") {
+					base := stripLoad(v).(*ssa.FieldAddr).X
+					if _, isP := resolveOrigin(c, base, 4).(*ssa.Parameter); isP {
+						return
+					}
+					bad = "the Status of an endpoint value that is not the record handed to the checker"
+					return
+				}
+				bad = "a status that is neither the probe's result nor the repository record's Status (" + c.Pos(v.Pos()) + ")"
+			}
+			for _, cf := range normFacts(condFacts(in.Block())) {
+				var ops []ssa.Value
+				switch x := cf.Cond.(type) {
+				case *ssa.BinOp:
+					ops = []ssa.Value{x.X, x.Y}
+				default:
+					ops = []ssa.Value{cf.Cond}
+				}
+				for _, op := range ops {
+					if bo, ok := op.(*ssa.BinOp); ok { // statusChanged := old != new, tested as a bool
+						for _, o2 := range []ssa.Value{bo.X, bo.Y} {
+							if isNamed(o2.Type(), pkgDomain, "EndpointStatus") {
+								leaf(o2, 5)
+							}
+						}
+						continue
+					}
+					if isNamed(op.Type(), pkgDomain, "EndpointStatus") {
+						leaf(op, 5)
+					}
+				}
+			}
+			switch {
+			case bad != "":
+				r.Bad("C07-R15", key, in.Pos(), "the recovery trigger compares "+bad+": transitions written to the repository by others (the proxy's offline marks) are invisible to it")
+			case nStatus == 0:
+				r.Undecided("C07-R15", key, in.Pos(), "no status comparison governs the recovery trigger")
+			default:
+				r.OK("C07-R15", key, in.Pos(), "old status = the handed-in record's Status, new status = the probe's result")
+			}
+		})
+	}
+	if n == 0 {
+		r.Undecided("C07-R15", "recovery-trigger", token.NoPos, "no call of OnEndpointRecovered found in the health package")
+	}
+	addMutants(Mutant{Prop: "C07", Name: "old-status-remembered-by-checker", File: "internal/adapter/health/checker.go", Rule: "C07-R15",
+		Old: "	oldStatus := endpoint.Status\n	newStatus := result.Status\n", New: "	oldStatus := endpoint.Status\n	newStatus := result.Status\n	if prev, seen := checkerLastStatus.Swap(endpoint.GetURLString(), newStatus); seen {\n		if ps, ok := prev.(domain.EndpointStatus); ok {\n			oldStatus = ps\n		}\n	}\n",
+		Edits: []Edit{{"internal/adapter/health/checker.go", "func (c *HTTPHealthChecker) checkEndpoint(", "var checkerLastStatus sync.Map\n\nfunc (c *HTTPHealthChecker) checkEndpoint("}}})
+}
+
+// ---------- C08-R13: the failure time is stamped before the breaker is published as open ----------
+func init() { registerExtra("C08", extraC08StampBeforeOpen) }
+
+func extraC08StampBeforeOpen(c *Ctx, r *Report) {
+	r.Rule("C08-R13", "in every breaker's failure recorder the store of the last-failure time stamp dominates each operation that opens the breaker (the store of a non-zero constant into its state/open field, or the call of the method that performs it): readers test the state first and the stamp second, so a breaker published as open before its stamp is written is seen as 'open since the previous failure' — long ago — and lets the caller through right after it tripped", 3)
+	n := 0
+	for _, bs := range breakers {
+		for _, f := range c.Funcs {
+			if f.Parent() != nil || !strings.HasSuffix(fnPkgPath(f), bs.Pkg) {
+				continue
+			}
+			// stamp stores in f
+			var stamps, opens []ssa.Instruction
+			isOpenStore := func(in ssa.Instruction) bool {
+				kind, o, fld, val, ok := atomicFieldCall(in)
+				if !ok || (kind != "store" && kind != "cas" && kind != "swap") || !isNamed(o, bs.Pkg, bs.Type) {
+					return false
+				}
+				if cfield(o, fld) == bs.LastFailField || cfield(o, fld) == bs.FailField {
+					return false
+				}
+				k, isK := constInt(val)
+				if !isK || k == 0 {
+					return false
+				}
+				// an "open" value: the field is the state / isOpen flag (not the probe-slot stamp, which gets times)
+				n := strings.ToLower(cfield(o, fld))
+				return strings.Contains(n, "open") || strings.Contains(n, "state")
+			}
+			eachInstr(f, func(in ssa.Instruction) {
+				if kind, o, fld, _, ok := atomicFieldCall(in); ok && kind == "store" && isNamed(o, bs.Pkg, bs.Type) && cfield(o, fld) == bs.LastFailField {
+					stamps = append(stamps, in)
+				}
+				if isOpenStore(in) {
+					opens = append(opens, in)
+				}
+				// a call of a method of the breaker that opens it (transitionToOpen)
+				if cc := getCall(in); cc != nil {
+					if sc := cc.StaticCallee(); sc != nil && sc != f && sc.Signature.Recv() != nil && strings.HasSuffix(fnPkgPath(sc), bs.Pkg) && sc.Blocks != nil {
+						opensInside := false
+						eachInstr(sc, func(x ssa.Instruction) {
+							if isOpenStore(x) {
+								opensInside = true
+							}
+						})
+						// only count helpers that open unconditionally-ish: they contain the open store and no stamp themselves
+						stampInside := false
+						eachInstr(sc, func(x ssa.Instruction) {
+							if kind, o, fld, _, ok := atomicFieldCall(x); ok && kind == "store" && isNamed(o, bs.Pkg, bs.Type) && cfield(o, fld) == bs.LastFailField {
+								stampInside = true
+							}
+						})
+						if opensInside && !stampInside {
+							opens = append(opens, in)
+						}
+					}
+				}
+			})
+			if len(stamps) == 0 || len(opens) == 0 {
+				continue
+			}
+			n++
+			key := fname(f) + ":stamp-before-open"
+			var bad ssa.Instruction
+			for _, o := range opens {
+				dom := false
+				for _, s := range stamps {
+					if instrDominates(s, o) {
+						dom = true
+					}
+				}
+				if !dom {
+					bad = o
+				}
+			}
+			if bad != nil {
+				r.Bad("C08-R13", key, bad.Pos(), "the breaker can be published as open before the time of this failure is stored: a concurrent reader pairs 'open' with the previous, long expired, failure time and admits traffic at the very moment the breaker trips")
+			} else {
+				r.OK("C08-R13", key, f.Pos(), "the failure time is stored before any operation that opens the breaker")
+			}
+		}
+	}
+	if n == 0 {
+		r.Undecided("C08-R13", "failure-recorders", token.NoPos, "no breaker function both stamps the failure time and opens the breaker")
+	}
+	addMutants(Mutant{Prop: "C08", Name: "open-published-before-stamp", File: "internal/adapter/health/circuit_breaker.go", Rule: "C08-R13",
+		Old: "	failures := atomic.AddInt64(&state.failures, 1)\n	atomic.StoreInt64(&state.lastFailure, time.Now().UnixNano())\n	atomic.StoreInt64(&state.lastAttempt, 0)\n\n	if failures >= int64(cb.failureThreshold) {\n		atomic.StoreInt32(&state.isOpen, 1)\n	}\n",
+		New: "	failures := atomic.AddInt64(&state.failures, 1)\n	atomic.StoreInt64(&state.lastAttempt, 0)\n\n	if failures >= int64(cb.failureThreshold) {\n		atomic.StoreInt32(&state.isOpen, 1)\n	}\n	atomic.StoreInt64(&state.lastFailure, time.Now().UnixNano())\n"})
+}
+
+// ---------- C10-R13 / C09-R12: a successful listing is always registered ----------
+func init() {
+	registerExtra("C10", func(c *Ctx, r *Report) { extraListingAlwaysRegistered(c, r, "C10-R13") })
+	registerExtra("C09", func(c *Ctx, r *Report) { extraListingAlwaysRegistered(c, r, "C09-R12") })
+	registerExtra("C10", extraC10FilterIgnoresCtx)
+}
+
+func extraListingAlwaysRegistered(c *Ctx, r *Report, rule string) {
+	r.Rule(rule, "in the discovery service's per-endpoint discovery, every `return nil` is preceded on all paths by the registry update (RegisterModels / RegisterModelsWithEndpoint) with the listing just obtained: a successful listing that is empty — or smaller, or 'suspicious' — replaces the previous one like any other; skipping the update keeps models attributed to an endpoint that no longer reports them, and they keep being routed there", 1)
+	f := c.Fn("internal/adapter/discovery", "(*ModelDiscoveryService).DiscoverEndpoint")
+	if f == nil {
+		r.Unresolved(rule, "(*ModelDiscoveryService).DiscoverEndpoint")
+		return
+	}
+	isRegister := func(in ssa.Instruction) bool {
+		cc := getCall(in)
+		if cc == nil {
+			return false
+		}
+		name := ""
+		if cc.IsInvoke() {
+			name = cc.Method.Name()
+		} else if sc := cc.StaticCallee(); sc != nil {
+			name = sc.Name()
+			// a helper of the service that performs the registration
+			if c.inRepo(sc) && sc.Blocks != nil && !strings.HasPrefix(name, "RegisterModels") {
+				found := false
+				eachInstr(sc, func(x ssa.Instruction) {
+					if c2 := getCall(x); c2 != nil {
+						n2 := ""
+						if c2.IsInvoke() {
+							n2 = c2.Method.Name()
+						} else if s2 := c2.StaticCallee(); s2 != nil {
+							n2 = s2.Name()
+						}
+						if strings.HasPrefix(n2, "RegisterModels") {
+							found = true
+						}
+					}
+				})
+				return found
+			}
+		}
+		return strings.HasPrefix(name, "RegisterModels")
+	}
+	key := fname(f) + ":nil-only-after-registration"
+	var bad *ssa.Return
+	for _, vr := range virtualReturns(f, f.Signature.Results().Len()-1) {
+		if !isNilConst(vr.Val) {
+			continue
+		}
+		if reachFromEntryAvoiding(f, vr.At, isRegister) {
+			bad = vr.Ret
+		}
+	}
+	if bad != nil {
+		r.Bad(rule, key, bad.Pos(), "discovery can report success for an endpoint without having handed its listing to the registry: the endpoint's previous listing stays in force although the endpoint no longer reports it")
+	} else {
+		r.OK(rule, key, f.Pos(), "every successful discovery registers the listing it obtained")
+	}
+	addMutants(Mutant{Prop: strings.Split(rule, "-")[0], Name: "empty-listing-not-registered", File: "internal/adapter/discovery/service.go", Rule: rule,
+		Old: "	// Check if registry supports endpoint registration\n", New: "	if len(filteredModels) == 0 && len(models) == 0 {\n		return nil\n	}\n	// Check if registry supports endpoint registration\n"})
+}
+
+// ---------- C10-R14: a valid filter is applied whatever the state of the context ----------
+func extraC10FilterIgnoresCtx(c *Ctx, r *Report) {
+	r.Rule("C10-R14", "the model filter's Apply (every implementation of the filter port in internal/adapter/filter) has no exit that depends on the state of a context: discovery falls back to the unfiltered listing when the filter reports an error, so a filter that 'fails' because the discovery deadline has just passed lets excluded models into the catalogue", 1)
+	isCtxState := func(v ssa.Value) bool {
+		found := false
+		var walk func(v ssa.Value, d int)
+		walk = func(v ssa.Value, d int) {
+			if v == nil || d == 0 || found {
+				return
+			}
+			if call, ok := v.(*ssa.Call); ok && call.Call.IsInvoke() && isNamed(call.Call.Value.Type(), "context", "Context") && (call.Call.Method.Name() == "Err" || call.Call.Method.Name() == "Done") {
+				found = true
+				return
+			}
+			if in, ok := v.(ssa.Instruction); ok {
+				for _, op := range in.Operands(nil) {
+					if *op != nil {
+						walk(*op, d-1)
+					}
+				}
+			}
+		}
+		walk(v, 5)
+		return found
+	}
+	n := 0
+	for _, f := range c.Funcs {
+		if f.Parent() != nil || !strings.Contains(fnPkgPath(f), "internal/adapter/filter") || f.Name() != "Apply" || f.Signature.Recv() == nil {
+			continue
+		}
+		n++
+		key := fname(f) + ":no-context-dependent-exit"
+		var bad token.Pos
+		for _, g := range withAnon(f) {
+			for _, ret := range returnsOf(g) {
+				for _, cf := range normFacts(condFacts(ret.Block())) {
+					if isCtxState(cf.Cond) {
+						if p := retPos(g, ret); !bad.IsValid() || p < bad {
+							bad = p
+						}
+					}
+				}
+			}
+			eachInstr(g, func(in ssa.Instruction) {
+				if sel, ok := in.(*ssa.Select); ok {
+					for _, st := range sel.States {
+						if isCtxState(st.Chan) {
+							bad = in.Pos()
+						}
+					}
+				}
+			})
+		}
+		if bad.IsValid() {
+			r.Bad("C10-R14", key, bad, "the filter gives up when its context is done: the caller treats that as a broken filter and registers the unfiltered listing")
+		} else {
+			r.OK("C10-R14", key, f.Pos(), "the filter's result does not depend on context state")
+		}
+	}
+	if n == 0 {
+		r.Undecided("C10-R14", "filter-apply", token.NoPos, "no Apply method found in internal/adapter/filter")
+	}
+	addMutants(Mutant{Prop: "C10", Name: "filter-honours-expired-context", File: "internal/adapter/filter/glob_filter.go", Rule: "C10-R14",
+		Old: "	if err := config.Validate(); err != nil {\n		return nil, fmt.Errorf(\"invalid filter configuration: %w\", err)\n	}\n\n	// tried without reflection",
+		New: "	if err := config.Validate(); err != nil {\n		return nil, fmt.Errorf(\"invalid filter configuration: %w\", err)\n	}\n	if err := ctx.Err(); err != nil {\n		return nil, err\n	}\n\n	// tried without reflection"})
+}
+
+// ---------- C09-R13: a body of unknown length is still inspected for its model ----------
+func init() { registerExtra("C09", extraC09ChunkedBodiesInspected) }
+
+func extraC09ChunkedBodiesInspected(c *Ctx, r *Report) {
+	r.Rule("C09-R13", "in the body inspector (the function that extracts the model name the routing strategy works with) no exit taken before the body is read is reached under a test of Request.ContentLength that the value -1 satisfies: a chunked upload announces no length, and skipping it leaves the request without a model name, so model-aware routing is bypassed and the request can go to endpoints that do not list the model", 1)
+	f := c.Fn("internal/adapter/inspector", "(*BodyInspector).Inspect")
+	if f == nil {
+		r.Unresolved("C09-R13", "(*BodyInspector).Inspect")
+		return
+	}
+	isRead := func(in ssa.Instruction) bool {
+		cc := getCall(in)
+		if cc == nil {
+			return false
+		}
+		ci := describeCall(cc)
+		if ci.Pkg == "io" && (ci.Name == "Copy" || ci.Name == "ReadAll" || ci.Name == "ReadFull" || ci.Name == "CopyN") {
+			return true
+		}
+		return cc.IsInvoke() && cc.Method.Name() == "Read"
+	}
+	minusOneSatisfies := func(cf condFact) bool {
+		bo, ok := cf.Cond.(*ssa.BinOp)
+		if !ok {
+			return false
+		}
+		lenOnX := mentionsField(bo.X, "net/http", "Request", "ContentLength", 2)
+		lenOnY := mentionsField(bo.Y, "net/http", "Request", "ContentLength", 2)
+		if lenOnX == lenOnY {
+			return false
+		}
+		op, other := bo.Op, bo.Y
+		if lenOnY { // mirror: k op len  ⇒  len op' k
+			other = bo.X
+			switch bo.Op {
+			case token.LSS:
+				op = token.GTR
+			case token.LEQ:
+				op = token.GEQ
+			case token.GTR:
+				op = token.LSS
+			case token.GEQ:
+				op = token.LEQ
+			}
+		}
+		truth := false
+		if k, isK := constInt(other); isK {
+			switch op {
+			case token.EQL:
+				truth = -1 == k
+			case token.NEQ:
+				truth = -1 != k
+			case token.LSS:
+				truth = -1 < k
+			case token.LEQ:
+				truth = -1 <= k
+			case token.GTR:
+				truth = -1 > k
+			case token.GEQ:
+				truth = -1 >= k
+			}
+		} else {
+			// against a configured (positive) limit
+			truth = op == token.LSS || op == token.LEQ || op == token.NEQ
+		}
+		return truth == cf.True
+	}
+	key := fname(f) + ":unknown-length-not-skipped"
+	var bad *ssa.Return
+	n := 0
+	for _, ret := range returnsOf(f) {
+		if !reachFromEntryAvoiding(f, ret, isRead) {
+			continue
+		}
+		n++
+		// the deciding tests: the condition on each edge that enters the return's block (what holds further up merely
+		// describes the requests that got this far)
+		var facts []condFact
+		for _, p := range ret.Block().Preds {
+			if ifi, ok := lastInstr(p).(*ssa.If); ok && len(p.Succs) == 2 && p.Succs[0] != p.Succs[1] {
+				facts = append(facts, condFact{ifi.Cond, p.Succs[0] == ret.Block(), ifi})
+			}
+		}
+		for _, cf := range normFacts(facts) {
+			if minusOneSatisfies(cf) {
+				bad = ret
+			}
+		}
+	}
+	switch {
+	case bad != nil:
+		r.Bad("C09-R13", key, bad.Pos(), "the inspector returns before reading the body under a ContentLength test that -1 (unknown length, chunked upload) satisfies: such requests carry no model name into routing and are sent to any compatible endpoint")
+	case n == 0:
+		r.Undecided("C09-R13", key, f.Pos(), "no exit before the body read found")
+	default:
+		r.OK("C09-R13", key, f.Pos(), fmt.Sprintf("%d early exit(s), none taken for an unknown body length", n))
+	}
+	addMutants(Mutant{Prop: "C09", Name: "inspector-skips-unknown-length", File: "internal/adapter/inspector/body_inspector.go", Rule: "C09-R13",
+		Old: "	if r.Body == nil || r.ContentLength == 0 {", New: "	if r.Body == nil || r.ContentLength < 1 {"})
+}
